@@ -59,8 +59,15 @@ def run(oc, tier, seed, model_available, escalate):
         man = cu.manager(algo, n, k0)
         kw = {"k": k} if percall else {}
         karg = k if percall else 0
-        with common.quiet():
-            par = bytes(man.encode(msg, **kw))
+        try:
+            with common.quiet():
+                par = bytes(man.encode(msg, **kw))
+        except Exception as ex:
+            oc.oracle_cases += 1
+            oc.violations.append({"input": {"algo": algo, "n": n, "k_ctor": k0, "k_call": k if percall else None, "msg": msg.hex()},
+                                  "impl": {"encode": "raised %s: %s" % (type(ex).__name__, str(ex)[:120])},
+                                  "what": "encode raised on a message of at most k symbols (k between 1 and n-1)"})
+            continue
         word = bytearray(msg + par)
         nsym = n - k
         L = len(word)
